@@ -361,7 +361,12 @@ class Run:
                   (self.pid, self.tier, nviol, self.evaluations, wall))
             return 1
         if self.inconclusive:
+            shown = set()
             for r in self.inconclusive:
+                sig = r.split("\n")[-2] if "\n" in r else r
+                if sig in shown:
+                    continue
+                shown.add(sig)
                 print("INCONCLUSIVE property=%s reason=%s" % (self.pid, r))
             return 2
         print("%s %s: held on %d executions (%d distinct non-trivial), %d monitor "
